@@ -50,12 +50,6 @@ def ops32 : Handler := fun st toks =>
   | "extend" :: d :: vs => do
     let (i, sl) ← b? d; let vs ← parseNats vs
     pure (st.setB i ⟨Bitmap.extend sl.m vs, Spec.extend sl.s vs⟩, "ok")
-  | ["insert_stride", d, start, step, count] => do
-    -- input-construction shorthand: `extend` with the arithmetic sequence start, start+step, …
-    let (i, sl) ← b? d; let start ← parseU32 start; let step ← parseU32 step; let count ← parseU32 count
-    if step = 0 ∨ count > 70000 ∨ start + step * count > 4294967296 then none else
-    let vs := (List.range count).map fun k => start + step * k
-    pure (st.setB i ⟨Bitmap.extend sl.m vs, Spec.extend sl.s vs⟩, "ok")
   | "from_iter" :: d :: vs => do
     let i ← parseSlot 'b' d; let vs ← parseNats vs
     pure (st.setB i ⟨Bitmap.fromIter vs, Spec.extend [] vs⟩, "ok")
